@@ -1,7 +1,14 @@
 import NauyacaVerif.Fs.Static
 namespace Fs
 
-/-! ## M-Upload: `FileUploadHandler.handle_upload` (repaired: atomic replace) as response + effects -/
+/-! ## M-Upload: `FileUploadHandler.handle_upload / _handle_delete / _is_safe_path`
+    (write to a sibling temporary file, `os.replace`, remove the temporary file on failure)
+    as response status + the list of filesystem effects.
+
+The filesystem is the abstract `OS` of `Fs/Static.lean` (`resolve` = `Path.resolve()`, `kind` =
+what `stat` sees); `Faults` are the injected storage failures.  Failures that the layout itself
+causes (a regular file where a directory is needed, a directory where the file should go, a name
+longer than NAME_MAX) are derived from `OS`. -/
 abbrev Bytes := List Nat
 
 structure UCfg where
@@ -10,32 +17,38 @@ structure UCfg where
   allowedTypes : Option (List String)   -- none or [] = all allowed
   tokens : List String                   -- [] = no authentication
   enableDelete : Bool
+  pid : String := "1"                    -- `os.getpid()` as it appears in the temporary name
+  tooLong : Name → Bool := fun n => n.utf8ByteSize > 255          -- NAME_MAX (the OS refuses such a component)
+  hasNul : Name → Bool := fun n => n.contains (Char.ofNat 0)     -- embedded NUL (Python refuses the path)
 
 structure UReq where
   comps : List Name      -- request.path.lstrip("/") split on "/"
   size : Nat
   mime : String
   token : Option String
-  content : Bytes
+  content : Bytes        -- the bytes that followed the request line
 
 inductive Effect where
-  | mkdirs (p : Path)               -- `target.parent.mkdir(parents=True, exist_ok=True)`
-  | writeTemp (p : Path) (b : Bytes) (ok : Bool)   -- ok = false: the write failed part-way
+  | mkdir (p : Path)                               -- one directory created by `mkdir(parents=True)`
+  | writeTemp (p : Path) (b : Bytes) (ok : Bool)   -- b = the bytes that reached the file; ok = false: the write raised
   | rename (src dst : Path) (ok : Bool)
   | unlink (p : Path) (ok : Bool)
 deriving Repr, DecidableEq
 
 /-- what the storage layer does when asked (fault injection points) -/
 structure Faults where
-  mkdirOk : Bool := true
-  writeOk : Bool := true
+  mkdirFailAt : Option Nat := none       -- the (n+1)-th directory creation raises
+  writeFailAfter : Option Nat := none    -- the write raises after n bytes
   renameOk : Bool := true
   unlinkOk : Bool := true
 
-inductive UStatus where | s20 | s40 | s50 | s51 | s59 | s60
+/-- `raised` = the exception leaves `handle_upload` (the protocol layer answers 40) -/
+inductive UStatus where | s20 | s40 | s50 | s51 | s59 | s60 | raised
 deriving Repr, DecidableEq
 
-def tempName (n : Name) : Name := "." ++ n ++ ".upload"
+def tempName (pid : String) (n : Name) : Name := "." ++ n ++ "." ++ pid ++ ".upload"
+
+def hasNul (c : UCfg) (comps : List Name) : Bool := comps.any c.hasNul
 
 def authOk (c : UCfg) (r : UReq) : Bool :=
   c.tokens.isEmpty || (match r.token with | some t => !t.isEmpty && c.tokens.contains t | none => false)
@@ -45,13 +58,48 @@ def typeOk (c : UCfg) (r : UReq) : Bool :=
   | none => true
   | some l => l.isEmpty || l.contains r.mime
 
-def store (c : UCfg) (f : Faults) (target : Path) (content : Bytes) : UStatus × List Effect :=
-  let parent := target.dropLast
-  let temp := parent ++ [tempName (target.getLast?.getD "")]
-  if !f.mkdirOk then (.s40, [.mkdirs parent])     -- mkdir itself failed: nothing else happens
-  else if !f.writeOk then (.s40, [.mkdirs parent, .writeTemp temp content false, .unlink temp true])
-  else if !f.renameOk then (.s40, [.mkdirs parent, .writeTemp temp content true, .rename temp target false, .unlink temp true])
-  else (.s20, [.mkdirs parent, .writeTemp temp content true, .rename temp target true])
+def consEff (e : Effect) (r : Bool × List Effect) : Bool × List Effect := (r.1, e :: r.2)
+
+/-- `target.parent.mkdir(parents=True, exist_ok=True)` walking down from the upload directory:
+    existing directories are passed, missing ones created (until one fails), anything else is an error.
+    Returns (succeeded, directories created). -/
+def mkdirWalk (os : OS) (c : UCfg) (f : Faults) : Path → List Name → Nat → Bool × List Effect
+  | _, [], _ => (true, [])
+  | cur, n :: rest, made =>
+    match os.kind (cur ++ [n]) with
+    | .dir => mkdirWalk os c f (cur ++ [n]) rest made
+    | .missing =>
+      if c.tooLong n then (false, [])
+      else if f.mkdirFailAt = some made then (false, [])
+      else consEff (.mkdir (cur ++ [n])) (mkdirWalk os c f (cur ++ [n]) rest (made + 1))
+    | _ => (false, [])
+
+def tempPath (c : UCfg) (target : Path) : Path := target.dropLast ++ [tempName c.pid (target.getLast?.getD "")]
+
+def mkParents (os : OS) (c : UCfg) (f : Faults) (target : Path) : Bool × List Effect :=
+  mkdirWalk os c f c.dir (target.dropLast.drop c.dir.length) 0
+
+/-- step 6 of `handle_upload` for a target that passed the containment check -/
+def store (os : OS) (c : UCfg) (f : Faults) (target : Path) (content : Bytes) : UStatus × List Effect :=
+  if !(mkParents os c f target).1 then (.s40, (mkParents os c f target).2)
+  else if c.tooLong (tempName c.pid (target.getLast?.getD "")) then (.s40, (mkParents os c f target).2)
+  else match f.writeFailAfter with
+    | some k =>
+      (.s40, (mkParents os c f target).2 ++ [.writeTemp (tempPath c target) (content.take k) false, .unlink (tempPath c target) true])
+    | none =>
+      if !f.renameOk || os.kind target = .dir then
+        (.s40, (mkParents os c f target).2 ++
+          [.writeTemp (tempPath c target) content true, .rename (tempPath c target) target false, .unlink (tempPath c target) true])
+      else
+        (.s20, (mkParents os c f target).2 ++ [.writeTemp (tempPath c target) content true, .rename (tempPath c target) target true])
+
+/-- `_handle_delete` after the `enable_delete` test -/
+def deleteAt (os : OS) (c : UCfg) (f : Faults) (t : Path) : UStatus × List Effect :=
+  if !inside c.dir t then (.s59, [])
+  else if t.any c.tooLong then (.raised, [])          -- `target.exists()` raises ENAMETOOLONG
+  else if os.kind t = .missing then (.s51, [])
+  else if f.unlinkOk && os.kind t != .dir then (.s20, [.unlink t true])
+  else (.s40, [.unlink t false])
 
 def handleUpload (os : OS) (c : UCfg) (f : Faults) (r : UReq) : UStatus × List Effect :=
   if !authOk c r then (.s60, [])
@@ -59,19 +107,18 @@ def handleUpload (os : OS) (c : UCfg) (f : Faults) (r : UReq) : UStatus × List 
   else if !typeOk c r then (.s59, [])
   else if r.size = 0 then
     if !c.enableDelete then (.s50, [])
+    else if hasNul c r.comps then (.raised, [])
     else match os.resolve (c.dir ++ r.comps) with
-      | none => (.s40, [])
-      | some t =>
-        if !inside c.dir t then (.s59, [])
-        else if os.kind t = .missing then (.s51, [])
-        else if f.unlinkOk then (.s20, [.unlink t true]) else (.s40, [.unlink t false])
+      | none => (.raised, [])
+      | some t => deleteAt os c f t
+  else if hasNul c r.comps then (.raised, [])
   else match os.resolve (c.dir ++ r.comps) with
-    | none => (.s40, [])
+    | none => (.raised, [])
     | some t =>
       if !inside c.dir t || t == c.dir then (.s59, [])
-      else store c f t (r.content.take r.size)
+      else store os c f t (r.content.take r.size)
 
-/-! ### a file-level view of the effects: what regular files exist with which bytes afterwards -/
+/-! ### a file-level view of the effects: which regular files exist with which bytes afterwards -/
 abbrev Files := List (Path × Bytes)
 
 def Files.set (fs : Files) (p : Path) (b : Bytes) : Files := (p, b) :: fs.filter (·.1 != p)
@@ -79,8 +126,8 @@ def Files.del (fs : Files) (p : Path) : Files := fs.filter (·.1 != p)
 def Files.get (fs : Files) (p : Path) : Option Bytes := (fs.find? (·.1 == p)).map (·.2)
 
 def applyEffect (fs : Files) : Effect → Files
-  | .mkdirs _ => fs
-  | .writeTemp p b ok => if ok then fs.set p b else fs.set p (b.take (b.length / 2))   -- a torn temp file
+  | .mkdir _ => fs
+  | .writeTemp p b _ => fs.set p b            -- whatever reached the file before the write ended or failed
   | .rename s d ok => if ok then (match fs.get s with | some b => (fs.del s).set d b | none => fs) else fs
   | .unlink p ok => if ok then fs.del p else fs
 
@@ -88,182 +135,9 @@ def applyAll (fs : Files) (es : List Effect) : Files := es.foldl applyEffect fs
 
 /-- paths an effect touches -/
 def Effect.paths : Effect → List Path
-  | .mkdirs p => [p]
+  | .mkdir p => [p]
   | .writeTemp p _ _ => [p]
   | .rename s d _ => [s, d]
   | .unlink p _ => [p]
 
-theorem inside_dropLast {root t : Path} (h : inside root t = true) (hne : t ≠ root) : inside root t.dropLast = true := by
-  simp only [inside, List.isPrefixOf_iff_prefix] at h ⊢
-  obtain ⟨s, rfl⟩ := h
-  cases hs : s.reverse with
-  | nil => simp at hs; subst hs; simp at hne
-  | cons x xs =>
-    have : s = xs.reverse ++ [x] := by
-      have := congrArg List.reverse hs; simpa using this
-    rw [this, ← List.append_assoc, List.dropLast_concat]
-    exact List.prefix_append _ _
-
-theorem inside_append {root p : Path} (h : inside root p = true) (x : Name) : inside root (p ++ [x]) = true := by
-  simp only [inside, List.isPrefixOf_iff_prefix] at h ⊢
-  exact h.trans (List.prefix_append _ _)
-
-/-- C14: every filesystem effect of an upload or delete lies inside the upload directory -/
-theorem upload_confined (os : OS) (c : UCfg) (f : Faults) (r : UReq) :
-    ∀ e ∈ (handleUpload os c f r).2, ∀ p ∈ e.paths, inside c.dir p = true := by
-  intro e he p hp
-  unfold handleUpload at he
-  split at he
-  · simp at he
-  · split at he
-    · simp at he
-    · split at he
-      · simp at he
-      · split at he
-        · split at he
-          · simp at he
-          · split at he
-            · simp at he
-            · rename_i t _
-              split at he
-              · simp at he
-              · rename_i hin
-                have hin' : inside c.dir t = true := by simpa using hin
-                split at he
-                · simp at he
-                · split at he <;> (simp at he; subst he; simp [Effect.paths] at hp; subst hp; exact hin')
-        · split at he
-          · simp at he
-          · rename_i t _
-            split at he
-            · simp at he
-            · rename_i hcond
-              simp only [Bool.or_eq_true, Bool.not_eq_true', beq_iff_eq, not_or] at hcond
-              have hin : inside c.dir t = true := by
-                cases h : inside c.dir t <;> simp_all
-              have hne : t ≠ c.dir := hcond.2
-              have hpar := inside_dropLast hin hne
-              have htmp := inside_append hpar (tempName (t.getLast?.getD ""))
-              unfold store at he
-              split at he
-              · simp at he; subst he; simp [Effect.paths] at hp; subst hp; exact hpar
-              · split at he
-                · simp at he
-                  rcases he with rfl | rfl | rfl <;> simp [Effect.paths] at hp <;> subst hp <;> assumption
-                · split at he
-                  · simp at he
-                    rcases he with rfl | rfl | rfl | rfl <;> simp [Effect.paths] at hp
-                    · subst hp; exact hpar
-                    · subst hp; exact htmp
-                    · rcases hp with rfl | rfl <;> assumption
-                    · subst hp; exact htmp
-                  · simp at he
-                    rcases he with rfl | rfl | rfl <;> simp [Effect.paths] at hp
-                    · subst hp; exact hpar
-                    · subst hp; exact htmp
-                    · rcases hp with rfl | rfl <;> assumption
-end Fs
-
-namespace Fs
-
-theorem get_del_set (fs : Files) (t : Path) (b : Bytes) (p : Path) (h : fs.get t = none) :
-    ((fs.set t b).del t).get p = fs.get p := by
-  unfold Files.set Files.del Files.get at *
-  have hnone : ∀ q ∈ fs, (q.1 == t) = false := by
-    intro q hq
-    cases hqt : (q.1 == t) with
-    | false => rfl
-    | true =>
-      exfalso
-      have : (fs.find? (·.1 == t)).isSome := by
-        rw [List.find?_isSome]; exact ⟨q, hq, hqt⟩
-      cases hf : fs.find? (·.1 == t) with
-      | none => simp [hf] at this
-      | some v => simp [hf] at h
-  have e1 : ((t, b) :: fs.filter (·.1 != t)).filter (·.1 != t) = fs := by
-    simp only [List.filter_cons, bne_self_eq_false, Bool.false_eq_true, ↓reduceIte, List.filter_filter, Bool.and_self]
-    rw [List.filter_eq_self]
-    intro q hq
-    have := hnone q hq
-    simp [bne, this]
-  rw [e1]
-
-/-- C14: a storing attempt that ends in a failure status leaves every existing file exactly as it was
-    (the torn data only ever lived in the temporary file, which is removed) -/
-theorem store_fail_unchanged (c : UCfg) (f : Faults) (t : Path) (content : Bytes) (fs : Files)
-    (htmp : fs.get (t.dropLast ++ [tempName (t.getLast?.getD "")]) = none)
-    (hfail : (store c f t content).1 ≠ .s20) :
-    ∀ p, (applyAll fs (store c f t content).2).get p = fs.get p := by
-  intro p
-  unfold store at hfail ⊢
-  simp only at hfail ⊢
-  split
-  · simp [applyAll, applyEffect]
-  · split
-    · simp only [applyAll, List.foldl_cons, List.foldl_nil, applyEffect, Bool.false_eq_true, ↓reduceIte]
-      exact get_del_set fs _ _ p htmp
-    · split
-      · simp only [applyAll, List.foldl_cons, List.foldl_nil, applyEffect, ↓reduceIte, Bool.false_eq_true]
-        exact get_del_set fs _ _ p htmp
-      · rename_i h1 h2 h3
-        simp [h1, h2, h3] at hfail
-
-example :
-    let c : UCfg := ⟨["up"], 100, none, [], false⟩
-    (store c { writeOk := false } ["up", "a"] [1, 2, 3, 4]).1 = .s40 := by decide
-end Fs
-
-namespace Fs
-/-- C14: anything at all happens to the filesystem only for a request that passed every guard -/
-theorem upload_guarded (os : OS) (c : UCfg) (f : Faults) (r : UReq) (h : (handleUpload os c f r).2 ≠ []) :
-    authOk c r = true ∧ r.size ≤ c.maxSize ∧ typeOk c r = true ∧ (r.size = 0 → c.enableDelete = true) := by
-  unfold handleUpload at h
-  split at h
-  · simp at h
-  · rename_i ha
-    split at h
-    · simp at h
-    · rename_i hs
-      split at h
-      · simp at h
-      · rename_i ht
-        refine ⟨by simpa using ha, by omega, by simpa using ht, ?_⟩
-        intro hz
-        simp only [hz, ↓reduceIte] at h
-        split at h
-        · simp at h
-        · rename_i hd; simpa using hd
-
-/-- C14: what is stored is exactly the declared number of bytes that followed the request line -/
-theorem upload_content (os : OS) (c : UCfg) (f : Faults) (r : UReq) (p : Path) (b : Bytes) (ok : Bool)
-    (h : Effect.writeTemp p b ok ∈ (handleUpload os c f r).2) : b = r.content.take r.size := by
-  unfold handleUpload at h
-  split at h
-  · simp at h
-  · split at h
-    · simp at h
-    · split at h
-      · simp at h
-      · split at h
-        · split at h
-          · simp at h
-          · split at h
-            · simp at h
-            · split at h
-              · simp at h
-              · split at h
-                · simp at h
-                · split at h <;> simp at h
-        · split at h
-          · simp at h
-          · split at h
-            · simp at h
-            · unfold store at h
-              split at h
-              · simp at h
-              · split at h
-                · simp at h; exact h.2.1
-                · split at h
-                  · simp at h; exact h.2.1
-                  · simp at h; exact h.2.1
 end Fs
